@@ -4,6 +4,7 @@ package storesim
 
 import (
 	"encoding/json"
+	"math"
 	"fmt"
 	"math/rand/v2"
 	"sort"
@@ -59,6 +60,10 @@ func valueOf(code string) any {
 		return true
 	case code == "bf":
 		return false
+	case code == "z0": // the two float zeros: equal under ==, different values
+		return 0.0
+	case code == "z1":
+		return math.Copysign(0, -1)
 	case code[0] == 'I': // an integer beyond 2^53 (not representable as a float64): int or int64
 		n, _ := strconv.Atoi(code[1:])
 		if n%2 == 0 {
@@ -110,6 +115,12 @@ func codeOf(v any) string {
 			return "I" + strconv.Itoa(int(x)-bigBase)
 		}
 	case float64:
+		if x == 0 {
+			if math.Signbit(x) {
+				return "z1"
+			}
+			return "z0"
+		}
 		return "f" + strconv.Itoa(int(x))
 	case []int:
 		if len(x) == 1 {
@@ -218,6 +229,9 @@ func apply(s state, op *Op, snapArg state) (state, string) {
 		return s, ""
 	case "getint", "getintor":
 		c := s[op.Key]
+		if c == "z0" || c == "z1" {
+			return s, "0"
+		}
 		if c != "" && c[0] == 'I' {
 			n, _ := strconv.Atoi(c[1:])
 			return s, strconv.Itoa(bigBase + n) // exactly the integer that was stored
@@ -231,6 +245,9 @@ func apply(s state, op *Op, snapArg state) (state, string) {
 		return s, "0"
 	case "getfloat":
 		c := s[op.Key]
+		if c == "z0" || c == "z1" {
+			return s, map[string]string{"z0": "0", "z1": "-0"}[c]
+		}
 		if c != "" && c[0] == 'I' {
 			n, _ := strconv.Atoi(c[1:])
 			return s, strconv.FormatFloat(float64(bigBase+n), 'f', -1, 64) // Go's conversion of the value
@@ -265,6 +282,9 @@ func apply(s state, op *Op, snapArg state) (state, string) {
 		return s, "nil"
 	case "getfloator":
 		c := s[op.Key]
+		if c == "z0" || c == "z1" {
+			return s, map[string]string{"z0": "0", "z1": "-0"}[c]
+		}
 		if c != "" && c[0] == 'I' {
 			n, _ := strconv.Atoi(c[1:])
 			return s, strconv.FormatFloat(float64(bigBase+n), 'f', -1, 64)
@@ -292,6 +312,10 @@ func apply(s state, op *Op, snapArg state) (state, string) {
 			return s, "null"
 		case c == "bt", c == "bf":
 			return s, strconv.FormatBool(c == "bt")
+		case c == "z0":
+			return s, "0"
+		case c == "z1":
+			return s, "-0"
 		case c[0] == 'I': // through JSON into an any: a float64
 			n, _ := strconv.Atoi(c[1:])
 			return s, strconv.FormatFloat(float64(bigBase+n), 'f', -1, 64)
@@ -557,6 +581,9 @@ func (g *genState) val() string {
 	}
 	if g.r.IntN(12) == 0 {
 		return "I" + strconv.Itoa(g.nextID)
+	}
+	if g.r.IntN(8) == 0 {
+		return pick2(g.r, "z0", "z1")
 	}
 	if g.nested && g.r.IntN(2) == 0 || g.r.IntN(20) == 0 {
 		return "n" + strconv.Itoa(g.nextID)
